@@ -165,11 +165,14 @@ pub fn is_ref_url(url: &str) -> bool {
         || url.starts_with('?'))
 }
 
-// an address with a scheme; what holds white space is no address (a note called "Re: budget")
+// an address with a scheme. A colon that is followed by white space (or by nothing) belongs to
+// a name ("Re: budget", "TODO: x"); an address may hold a space further on, it is then
+// written between angle brackets (<https://example.com/My Page>)
 pub fn has_scheme(url: &str) -> bool {
     match url.split_once(':') {
-        Some((scheme, _)) => {
-            !url.contains(char::is_whitespace)
+        Some((scheme, rest)) => {
+            !rest.starts_with(char::is_whitespace)
+                && !rest.is_empty()
                 && scheme.len() > 1
                 && scheme.starts_with(|c: char| c.is_ascii_alphabetic())
                 && scheme
